@@ -18,8 +18,8 @@ type scheduler struct {
 	enabled bool
 }
 
-func (s *scheduler) lock(i *interpreter, m value, write bool)   {}
-func (s *scheduler) unlock(i *interpreter, m value, write bool) {}
+func (s *scheduler) lock(i *interpreter, m value, write bool)                {}
+func (s *scheduler) unlock(i *interpreter, m value, write bool)              {}
 func (s *scheduler) waitUntil(i *interpreter, cond func() bool, what string) {}
 
 type thread struct {
@@ -27,8 +27,8 @@ type thread struct {
 	done bool
 }
 
-func (s *scheduler) reset()                                      {}
-func (s *scheduler) finishMain(i *interpreter)                   {}
+func (s *scheduler) reset()                                     {}
+func (s *scheduler) finishMain(i *interpreter)                  {}
 func (s *scheduler) visible(i *interpreter, op string, obj any) {}
 
 func (i *interpreter) spawn(fr *frame, pos token.Pos, fn value, args []value) {
